@@ -139,8 +139,23 @@ def run(tier, replay):
         rng.shuffle(tr)
         limit = 3500 if tier == "quick" else 60000
         chosen = nt[:limit * 4 // 5] + tr[:limit // 5]
+        # set clause: "set $w = v" + OP($w).  A line without v gets $w = the literal text "v", i.e. it behaves like a line whose
+        # v is non-numeric: the central rows are those TLC computed for the table with none -> nan (looked up, not recomputed)
+        def ckey(c, lines):
+            return json.dumps([lines, c["part"], c["withCount"], c["op"], c["accumulate"], c["wh"]], sort_keys=True)
+        index = {ckey(c, c["lines"]): c for c in cases}
+        nset = 0
+        for c in list(chosen):
+            if c["op"] != "last" and rng.random() < 0.12:
+                tl = [dict(l, k="nan") if l["k"] == "none" else l for l in c["lines"]]
+                t = index.get(ckey(c, tl))
+                if t is not None:
+                    c2 = dict(t, lines=c["lines"], setcopy=True)
+                    chosen.append(c2)
+                    nset += 1
         for i, c in enumerate(chosen):
             c["id"] = i
+            c.setdefault("setcopy", False)
             has_none = any(l["k"] == "none" for l in c["lines"])
             c["format"] = rng.choice(["generickv", "generickv", "default"] + ([] if has_none else ["csv"]))
             c["ord"], c["ordcol"], c["lim"] = "", "count", -1
@@ -224,7 +239,7 @@ def run(tier, replay):
             if g not in got or any(abs(a - b) > 1e-4 * max(1.0, abs(b)) for a, b in zip(got[g], w)):
                 V.violation("magnitude case: group %s is %s, central evaluation gives %s (count,sum,min,max,avg)" % (g, got.get(g), w),
                             {"n": nbig, "rows": mag["rows"], "wire": mag["wire"][:6]})
-        cov = {"ordering_limit_outputs_judged": len(order_recs), "states": r.distinct + re_.distinct, "transitions": r.generated + re_.generated,
+        cov = {"ordering_limit_outputs_judged": len(order_recs), "set_clause_cases": nset, "states": r.distinct + re_.distinct, "transitions": r.generated + re_.generated,
                "traces_validated_against_impl": len(chosen) - problems, "evaluations": len(chosen) - problems,
                "distinct_nontrivial": sum(1 for c in chosen if nontrivial(c)),
                "rule": "cases = tables of up to MaxLines lines (2 groups x 5 kinds of field value) x partitions into 3 parts x 7 aggregate "
